@@ -106,6 +106,8 @@ def _lemmas_one(args):
                 if isinstance(g, tuple):
                     nm, g = 'lemma.%s.%s' % (name, g[0]), g[1]
                 vc = VC('%s.%s' % (pid, nm), [], [], g, 0, expect)
+                if 'String' in str(g.sort()) or 'str.' in g.sexpr()[:20000]:
+                    vc.z3_ms = 2500       # string lemmas: z3's sequence solver either answers at once or not at all; cvc5 takes over
                 r = discharge(vc)
                 out.append({'name': vc.name, 'status': r.status, 'backend': r.backend, 'time_s': round(r.time_s, 4),
                             'ok': r.ok, 'expect': expect, 'note': 'lemma', 'line': 0, 'detail': r.detail[:300],
@@ -419,8 +421,10 @@ def write_evidence(a, spec, seed, fn_reports, lemmas, inlined, obligations, nobl
         cov['rule'] = 'one evaluation per generated proof obligation; distinct = distinct obligation names'
     ev = {'property_id': a.pid, 'tier': a.tier, 'seed': seed, 'level': level, 'coverage': cov,
           'assumptions': spec.get('assumptions', []), 'wall_s': round(wall, 2), 'violations': nviol}
-    os.makedirs(os.path.join(HERE, 'evidence'), exist_ok=True)
-    with open(os.path.join(HERE, 'evidence', a.pid + '.json'), 'w') as f:
+    # evidence/ describes /repo itself; runs against a scratch tree (VERIF_REPO) keep theirs apart
+    evdir = os.path.join(HERE, 'evidence') if REPO == '/repo' else os.path.join(HERE, '.scratch', 'evidence')
+    os.makedirs(evdir, exist_ok=True)
+    with open(os.path.join(evdir, a.pid + '.json'), 'w') as f:
         json.dump(ev, f, indent=1, default=str)
 
 
